@@ -28,6 +28,13 @@ def write_in_child(path, key, value):
     return True
 
 
+def write_td_in_child(td, key, value):
+    """run in a worker process: the memory-mapped tensordict itself crossed the process boundary (pickled):
+    it must arrive as a view of the same files"""
+    td[key].fill_(value)
+    return [bool(td.is_memmap())]
+
+
 def gen(rng, kind, b):
     from tensordict import LazyStackedTensorDict, NonTensorData, NonTensorStack, TensorDict
     import c11_trips
@@ -78,6 +85,8 @@ def run_ext(run):
             for it in range(32 if quick else 240):
                 kind = KINDS[it % len(KINDS)]
                 b = [] if kind == "rank0" else rng.choice([[2], [3], [2, 2]] if kind not in ("njt",) else [[2], [3]])
+                if kind in ("lazy", "lazy-nested", "nontensor-stack") and it % 3 == 0:
+                    b = [rng.randint(11, 13)]     # more members than one decimal digit counts
                 td = gen(rng, kind, b)
                 ref = canon(td, **OPTS)
                 for api in ("memmap", "memmap_", "save"):
@@ -142,6 +151,23 @@ def run_ext(run):
                         run.oracle_ok(f"write_through({method} writer)")
                     else:
                         run.oracle_fail(f"write_through({method} writer)", case, f"write made in a {method}ed process seen as {seen} by (saver mapping, second mapping, later load)", f"write:{method}")
+                    # the memory-mapped tensordict itself sent to the other process (pickled): writes made there through a nested
+                    # entry are seen here by the saver's mapping, by the second mapping and by a later load
+                    ival = it + 50
+                    try:
+                        with time_limit(120):
+                            flags = pool.apply(write_td_in_child, (saved, ("n", "x"), ival))
+                        seen = [flags[0], bool((saved["n", "x"] == ival).all()), bool((other["n", "x"] == ival).all()),
+                                bool((TensorDict.load_memmap(d)["n", "x"] == ival).all())]
+                    except TimeoutError as e:
+                        raise Infra(f"child writer timed out: {e}")
+                    except Exception as e:  # noqa: BLE001
+                        seen = [f"raised {type(e).__name__}: {e}"]
+                    if seen == [True, True, True, True]:
+                        run.oracle_ok(f"write_through(sent to a {method} process)")
+                    else:
+                        run.oracle_fail(f"write_through(sent to a {method} process)", case,
+                                        f"write made through the memory-mapped tensordict sent to a {method}ed process: (still memmap there, saver mapping, second mapping, later load) = {seen}", f"write-sent:{method}")
                 # load_memmap_ into an existing structure, memmap_refresh_ after make_memmap elsewhere
                 try:
                     dest = td.apply(lambda x: torch.zeros_like(x))
@@ -157,6 +183,28 @@ def run_ext(run):
                     run.oracle_ok("load_memmap_/refresh")
                 else:
                     run.oracle_fail("load_memmap_/refresh", case, str(ok1 or ok2), "load_/refresh")
+                # make_memmap_from_tensor / make_memmap_from_storage / nested keys (creates the sub-directories and their metadata)
+                d3 = root / f"w{it}_mk"
+                try:
+                    base_td = TensorDict({"a": mk_tensor(None, torch.float32, b + [2], it), "n": {"x": mk_tensor(None, torch.int64, b, it + 1)}}, b)
+                    mm = base_td.memmap(d3)
+                    w = mk_tensor(None, torch.int32, b + [3], it + 2)
+                    mm.make_memmap_from_tensor(("sub", "w"), w)
+                    # the storage must be the physical storage of the file of the new entry (documented requirement)
+                    src = torch.from_file(str(d3 / "st.memmap"), shared=True, dtype=torch.float64, size=b[0] * 2).reshape(b + [2])
+                    src.copy_(mk_tensor(None, torch.float64, b + [2], it + 3))
+                    mm.make_memmap_from_storage("st", src.untyped_storage(), torch.Size(b + [2]), dtype=torch.float64)
+                    mm.make_memmap(("n", "deep", "k"), torch.Size(b + [1]), dtype=torch.uint8)
+                    want = TensorDict({"a": base_td["a"], "n": {"x": base_td["n", "x"], "deep": {"k": torch.zeros(b + [1], dtype=torch.uint8)}},
+                                       "sub": {"w": w}, "st": src}, b)
+                    res3 = first_diff(canon(want, **OPTS), canon(TensorDict.load_memmap(d3), **OPTS)) or first_diff(canon(want, **OPTS), canon(mm, **OPTS))
+                except Exception as e:  # noqa: BLE001
+                    res3 = f"raised {type(e).__name__}: {str(e)[:150]}"
+                if res3 is None:
+                    run.oracle_ok("make_memmap_from_*")
+                else:
+                    run.oracle_fail("make_memmap_from_*", case, f"after make_memmap_from_tensor / _from_storage / nested make_memmap: {res3}", "make_from")
+                shutil.rmtree(d3, ignore_errors=True)
                 # copy_existing: an entry that already lives in another directory
                 d2 = root / f"w{it}_copy"
                 try:
